@@ -19,7 +19,7 @@ from ..lib import make_evaluator
 ID = "C16"
 LEVEL = "model_checking"
 RULE = (
-    "worker sets {s1,s2}, {s1,s1}, {s1,s2,s1}, {s1,s2,stat}, {s1,s1,stat}, {s1,s2,s3} (thorough: + {s1,s2,s1,stat}, {s1,s1,s1,s2} and a 9000-character subject name whose row is flushed early) x "
+    "worker sets {s1,s2}, {s1,s1}, {s1,s2,s1}, {s1,s2,stat}, {s1,s1,stat}, {s1,s2,s3}, {bad,s1,s1}, {bad,s1,stat} (bad = a call whose evaluation raises) (thorough: + {s1,s2,s1,stat}, {s1,s1,s1,s2} and a 9000-character subject name whose row is flushed early) x "
     "{thread mode, forked-process mode} x initial file {header only, header + one finished subject s0}; ALL reachable states of the interleavings of lock acquisitions and file operations "
     "(evaluate = 8-9 scheduling points, make_statistic = 3; the unlocked compute phase is one step). transitions = single scheduling steps, each validated by replaying the real code from the initial state. "
     "line granularity inside panoptica_aggregator.py (every tier; thread mode, 2 workers, one preemption before every source line of that module the preempted worker executes, sets {s1,s2}, {s1,s1}, {s1,stat}); thorough additionally: line granularity in all modules - thread mode, 2 workers, one preemption before EVERY source line the preempted worker executes inside panoptica/* (about 5500 per evaluate), for worker sets {s1,s2}, {s1,s1}, {s1,stat} and either worker preempted; "
@@ -42,7 +42,8 @@ R3 = np.array([[0, 3, 3, 0], [0, 0, 0, 0]], dtype=np.uint8)
 DATA = {"s1": (P1, R1), "s2": (P2, R2), "s3": (P3, R3), "s0": (P2, R1)}
 LONG = "L" * 9000
 
-SETS_Q = [("s1", "s2"), ("s1", "s1"), ("s1", "s2", "s1"), ("s1", "s2", "stat"), ("s1", "s1", "stat"), ("s1", "s2", "s3")]
+# "bad" = a call whose evaluation raises (prediction and reference of different shape): it must not disturb the others
+SETS_Q = [("s1", "s2"), ("s1", "s1"), ("s1", "s2", "s1"), ("s1", "s2", "stat"), ("s1", "s1", "stat"), ("s1", "s2", "s3"), ("bad", "s1", "s1"), ("bad", "s1", "stat")]
 SETS_T = SETS_Q + [("s1", "s2", "s1", "stat"), ("s1", "s1", "s1", "s2"), ("LONG", "s1"), ("LONG", "LONG", "stat")]
 
 
@@ -81,7 +82,12 @@ def run_block(block, acc):
         run_case({"kind": "set", "workers": list(ws), "mode": mode, "init": init}, acc)
 
 
+BAD = (np.zeros((2, 4), dtype=np.uint8), np.zeros((3, 4), dtype=np.uint8))
+
+
 def _data(name):
+    if name == "bad":
+        return BAD
     return DATA["s1"] if name == "LONG" else DATA[name]
 
 
@@ -111,12 +117,17 @@ class Fixture:
         self.base_rows = agg.parse_tsv(self.files0["/vfs/d/out.tsv"])[1:]
         # sequential reference rows
         self.seq_rows = {}
+        self.seq_raises = {}
         for n in sorted(set(names)):
             if n == "stat":
                 continue
             vfs.reset(dict(self.files0), dirs=["/vfs/d"])
             sched.restore_image(self.image)
-            copy.deepcopy(self.A).evaluate(_data(n)[0].copy(), _data(n)[1].copy(), _name(n))
+            try:
+                copy.deepcopy(self.A).evaluate(_data(n)[0].copy(), _data(n)[1].copy(), _name(n))
+            except Exception as e:
+                self.seq_raises[_name(n)] = type(e).__name__
+                continue
             rows = agg.parse_tsv(vfs.fs.files["/vfs/d/out.tsv"])
             self.seq_rows[_name(n)] = rows[-1]
         agg.drop_exit_handlers()
@@ -171,7 +182,7 @@ def run_case(case, acc):
 
 def make_judge(acc, case, fx, workers, mode, init):
     submitted = [_name(w) for w in workers if w != "stat"]
-    expect_names = sorted(set(submitted))
+    expect_names = sorted(n for n in set(submitted) if n not in fx.seq_raises)
     nviol = [0]
 
     def judge(ex, ctx, schedule):
@@ -185,6 +196,8 @@ def make_judge(acc, case, fx, workers, mode, init):
             return
         for w in ex.workers:
             if w.exc is not None:
+                if fx.seq_raises.get(_name(workers[w.wid])) == type(w.exc).__name__:
+                    continue  # this call raises in a sequential run as well (invalid input): no row is expected for it
                 acc.violation(f"C16:worker_raised:{type(w.exc).__name__}", c2, f"{tag}: worker {w.wid} ({workers[w.wid][:6]}) raised {w.exc!r}")
                 ok = False
         rows = agg.parse_tsv(vfs.fs.files.get("/vfs/d/out.tsv", ""))
